@@ -281,8 +281,7 @@ func c08(c *Ctx) {
 		okEmpty := false
 		eachInstr(lh, func(in ssa.Instruction) {
 			if ret, ok := in.(*ssa.Return); ok {
-				cs := strings.Join(condStrings(ret.Block()), " && ")
-				if strings.Contains(cs, "builtin len") && strings.Contains(cs, "==0)=true") {
+				if knownEmpty(factsAt(ret.Block()), func(ssa.Value) bool { return true }) {
 					okEmpty = true
 				}
 			}
@@ -292,8 +291,12 @@ func c08(c *Ctx) {
 		okZero := false
 		eachInstr(eh, func(in ssa.Instruction) {
 			if ret, ok := in.(*ssa.Return); ok {
-				cs := strings.Join(condStrings(ret.Block()), " && ")
-				if strings.Contains(cs, "(bucketLimit==0)=true") {
+				isLimit := func(v ssa.Value) bool {
+					p, ok := stripConv(v).(*ssa.Parameter)
+					return ok && p.Parent() == eh && isIntType(p.Type())
+				}
+				isZero := func(v ssa.Value) bool { n, ok := constInt(v); return ok && n == 0 }
+				if cmpHolds(factsAt(ret.Block()), isLimit, isZero, token.EQL) {
 					if _, isMk := ret.Results[0].(*ssa.MakeMap); isMk {
 						parsed := false
 						for _, cl := range callsIn(eh) {
@@ -311,9 +314,19 @@ func c08(c *Ctx) {
 		okTrunc := false
 		eachInstr(rt, func(in ssa.Instruction) {
 			if sl, ok := in.(*ssa.Slice); ok && sl.High != nil {
-				es := exprString(sl.High, 0)
-				if strings.Contains(es, "min(") && strings.Contains(es, "bucketlimit") && strings.Contains(es, "builtin len") {
-					okTrunc = true
+				// High = min(len(<the sliced value>), <the limit parameter>) with the module's or the builtin min
+				if mc, ok := stripConv(sl.High).(*ssa.Call); ok && strings.HasSuffix(strings.TrimSuffix(calleeName(mc), ")"), "min") && len(mc.Call.Args) == 2 {
+					hasLen, hasLimit := false, false
+					for _, a := range mc.Call.Args {
+						a = stripConv(a)
+						if lc, ok := a.(*ssa.Call); ok && isCall(lc, "builtin len") && lc.Call.Args[0] == sl.X {
+							hasLen = true
+						}
+						if p, ok := a.(*ssa.Parameter); ok && p.Parent() == rt && isIntType(p.Type()) {
+							hasLimit = true
+						}
+					}
+					okTrunc = hasLen && hasLimit
 				}
 			}
 		})
@@ -576,8 +589,7 @@ func c08(c *Ctx) {
 		okIdle := false
 		for _, st := range fieldStores(ft, "Timer", "Count") {
 			if k, isC := st.Val.(*ssa.Const); isC && k.Value.ExactString() == "0" {
-				cs := strings.Join(condStrings(st.Block()), " && ")
-				okIdle = strings.Contains(cs, ">0)=false")
+				okIdle = knownEmpty(factsAt(st.Block()), func(v ssa.Value) bool { return strings.HasSuffix(pathOf(v), ".Values") })
 			}
 		}
 		r.Check("idle-timer-count-zero", okIdle, ft.Pos(), "a timer without values reports count 0")
